@@ -28,6 +28,7 @@ from pdfminer.pdftypes import PDFStream  # noqa: E402
 PLAIN, LT, GT, AMP, QUOT, APOS, CTRL, NONASCII, ASTRAL = range(1, 10)
 SLASH, EQ, SP, LF, SEMI, QM, FF, BOM, HASH = range(10, 19)
 PLUS, TILDE, SI, SO = 19, 98, 96, 97
+PCT, LBRACE, RBRACE, FMT = 32, 33, 34, 35
 GARBAGE = 99
 WORDS = {20: "pages", 21: "page", 22: "textbox", 23: "textline", 24: "text", 25: "figure", 26: "image", 27: "line",
          28: "rect", 29: "curve", 30: "layout", 31: "textgroup",
@@ -36,11 +37,11 @@ WORDS = {20: "pages", 21: "page", 22: "textbox", 23: "textline", 24: "text", 25:
          56: "xml", 60: "lt", 61: "gt", 62: "amp", 63: "quot", 64: "x27", 65: "vertical", 66: "1.0", 68: ".bmp"}
 SINGLE = {LT: "<", GT: ">", AMP: "&", QUOT: '"', APOS: "'", SLASH: "/", EQ: "=", SP: " ", LF: "\n", SEMI: ";", QM: "?",
           FF: "\f", BOM: "﻿", HASH: "#"}
-SINGLE.update({PLUS: "+", TILDE: "~"})
+SINGLE.update({PLUS: "+", TILDE: "~", PCT: "%", LBRACE: "{", RBRACE: "}"})
 # several concrete members per class (the replay also checks that class members are treated alike)
-REPS = [{PLAIN: "a", CTRL: "\x01", NONASCII: "\xe9", ASTRAL: "\U0001F600"},
-        {PLAIN: "Z", CTRL: "\x1f", NONASCII: "中", ASTRAL: "\U0001D11E"},
-        {PLAIN: "7", CTRL: "\x0b", NONASCII: "\xff", ASTRAL: "\U00010348"}]
+REPS = [{PLAIN: "a", CTRL: "\x01", NONASCII: "\xe9", ASTRAL: "\U0001F600", FMT: "s"},
+        {PLAIN: "Z", CTRL: "\x1f", NONASCII: "中", ASTRAL: "\U0001D11E", FMT: "d"},
+        {PLAIN: "7", CTRL: "\x0b", NONASCII: "\xff", ASTRAL: "\U00010348", FMT: "0"}]
 F_ID, F_BBOX, F_ROTATE, F_CS, F_NCOLOUR, F_SIZE, F_LINEWIDTH, F_PTS, F_WIDTH, F_HEIGHT = range(10)
 E_PAGES, E_PAGE, E_TEXTBOX, E_TEXTLINE, E_TEXT, E_FIGURE, E_IMAGE, E_LINE, E_RECT, E_CURVE, E_LAYOUT, E_TEXTGROUP = range(20, 32)
 A_ID, A_BBOX, A_ROTATE, A_FONT, A_CS, A_NCOLOUR, A_SIZE, A_NAME, A_LINEWIDTH, A_PTS, A_WMODE, A_SRC, A_WIDTH, A_HEIGHT, \
